@@ -20,7 +20,7 @@ META = {
     "assumptions": ["identity on the structured event array is the oracle (exact)", "region equality by behaviour: same cell index for probe points"],
     "deciding": ["roundtrip:ascii", "roundtrip:dict", "roundtrip:json", "roundtrip:dataframe"],
 }
-META["added"] = 'Added: with_datetime DataFrame route on non-chronological catalogs, catalog ids 0 and 1 always generated, exponent-notation field values (|v| < 1e-4, subnormals) also in first position, latitude-major regions. the same file path re-used by every case. negative catalog ids.'
+META["added"] = 'Added: with_datetime DataFrame route on non-chronological catalogs, catalog ids 0 and 1 always generated, exponent-notation field values (|v| < 1e-4, subnormals) also in first position, latitude-major regions. the same file path re-used by every case. negative catalog ids. origin time 0 ms.'
 MANIFEST = {
     "technique": "boundary recorder on the eight persistence functions with exact identity oracle on the structured event array; region equality by probe behaviour; generated hostile ids / millisecond phases / extreme coordinates",
     "level_text": "Each generated catalog is pushed through the four persistence routes with the real functions; the reloaded event array must be bit-identical (ids, integer ms origin times, doubles), integer catalog ids must survive every route and name/region the dict/JSON routes (region compared by the cell index of boundary-adjacent probe points).",
@@ -45,6 +45,8 @@ def gen_events(r, n, j):
         ms = int(r.integers(LO_MS // 1000, HI_MS // 1000)) * 1000 + phase
         if kind == 3:
             ms = -abs(ms) // 1000 * 1000 + phase       # pre-1970
+        if r.uniform() < 0.05:
+            ms = 0                                     # the epoch instant itself
         if r.uniform() < 0.5:
             lat, lon = float(numpy.round(r.uniform(-90, 90), int(r.integers(0, 5)))), float(numpy.round(r.uniform(-180, 180), int(r.integers(0, 5))))
             dep, mag = float(numpy.round(r.uniform(0, 700), 2)), float(numpy.round(r.uniform(0, 9.5), 2))
